@@ -160,14 +160,30 @@ Proof.
 Qed.
 Print Assumptions C27_u256_ops_correct.
 
-(* math.sw Power for u256 (model fuel 40 >= 32 loop trips; out-of-fuel excluded) *)
+(* u256 << >> (WQOP shl/shr: bits fall off, never a panic) and wrapping_add/sub/mul (F_WRAPPING set): modular *)
+Theorem C27_u256_shifts_correct : forall a s, a < 2 ^ 256 ->
+  u256_lsh default_flags a s = Ret ((a * 2 ^ s) mod 2 ^ 256) /\
+  u256_rsh default_flags a s = Ret (a / 2 ^ s).
+Proof. intros a s Ha. split; [apply u256_lsh_df | apply u256_rsh_df; exact Ha]. Qed.
+Print Assumptions C27_u256_shifts_correct.
+
+Theorem C27_u256_wrapping_correct : forall a b, a < 2 ^ 256 -> b < 2 ^ 256 ->
+  u256_add (wrap_on default_flags) a b = Ret ((a + b) mod 2 ^ 256) /\
+  u256_sub (wrap_on default_flags) a b = Ret ((2 ^ 256 + a - b) mod 2 ^ 256) /\
+  u256_mul (wrap_on default_flags) a b = Ret ((a * b) mod 2 ^ 256).
+Proof.
+  intros a b Ha Hb. split; [apply u256_wrapping_add | split; [apply u256_wrapping_sub; assumption | apply u256_wrapping_mul]].
+Qed.
+Print Assumptions C27_u256_wrapping_correct.
+
+(* math.sw Power for u256 (`u256_pow` runs the loop with fuel 40, proved sufficient for a u32 exponent) *)
 Theorem C27_u256_pow_correct : forall a e, e < 2 ^ 32 ->
   match u256_pow default_flags a e with
   | Ret r => a ^ e < 2 ^ 256 /\ r = a ^ e
   | Rev _ | Vmp _ => 2 ^ 256 <= a ^ e
-  | Oof => True
+  | Oof => False
   end.
-Proof. exact u256_pow_correct. Qed.
+Proof. exact u256_pow_full. Qed.
 Print Assumptions C27_u256_pow_correct.
 
 Theorem C27_u256_log2_correct : forall a, a < 2 ^ 256 ->
